@@ -8,17 +8,21 @@ from common import Ctx, driver_json, fmt
 import uni_common as U
 
 PROPERTY = "C09"
-LEAN_MODULES = ["Proofs.C09", "Proofs.C09.Kernel", "Proofs.C09.Recip", "Proofs.C09.Tick", "Proofs.C09.ByValue", "Proofs.C09.Fee", "Proofs.C09.Views", "Proofs.C09.Std", "Proofs.C09.Witness", "Proofs.C09.Explicit"]
+LEAN_MODULES = ["Proofs.C09", "Proofs.C09.Kernel", "Proofs.C09.Recip", "Proofs.C09.Tick", "Proofs.C09.ByValue", "Proofs.C09.Fee", "Proofs.C09.Views", "Proofs.C09.Std", "Proofs.C09.Witness", "Proofs.C09.Explicit", "Proofs.C09.ByValueIn"]
 DRIVERS = ["driver"]
 RULE = ("each case builds a real UniLpMarket on pool (token0 = quote) and on its mirror (token0 = base; ticks negated, per-token volumes swapped, "
         "same base/quote price, same wallet) and runs the same sequence of base/quote-denominated operations on both: add_liquidity (by price), "
         "add_liquidity_by_tick, remove_liquidity (all / part, with and without collect), collect_fee, buy, sell, swap, even_rebalance, "
-        "add_liquidity_by_value, a fee accrual step (set_market_status + update), and after every step the views get_market_balance, "
+        "add_liquidity_by_value, a fee accrual step (set_market_status + update; a directed stream walks the tick onto / along / off a range bound), and after every step the views get_market_balance, "
         "get_position_status, estimate_amount, estimate_liquidity — with the price inside, below and above the ranges, on a range bound, decimals "
         "6/18, 18/6, 8/18, 18/18, 6/6, all three fee tiers. Buckets = (operation, price regime, decimals pair, fee tier, outcome, observable class).")
 TRUSTED = ["the mirror law of the numeric kernel (sqrt(1.0001^t) vs sqrt(1.0001^-t), Decimal sqrt of p vs 1/p, Decimal(10**-12) being a binary double) "
-           "holds only approximately; C09_orchestration is proved for kernels that satisfy it exactly, the distance of the concrete kernel from an "
-           "exactly mirrored one is MEASURED here against the property's 1e-12 / 0.1 % (max relative deviation in the evidence)",
+           "holds only approximately: C09_std_kernel_has_no_exact_mirror proves that NO sqrt-price map makes the code's kernel satisfy it exactly. "
+           "C09_orchestration(_explicit_price), the view theorems and C09_add_by_value_mirror_exact are statements about the orchestration code for "
+           "kernels that do satisfy it (non-trivial instance: C09_mirror_law_has_nontrivial_instance); what the code's own helpers satisfy is proved "
+           "in Proofs/C09/Std.lean with the reciprocity slack explicit (C09_std_sqrtToPrice/tickToPrice/amount0/amount1_mirror_eps, bounded on the "
+           "whole tick range by C09_kernel_reciprocity). The propagation of that slack through wallet checks and the liquidity floors is NOT proved: "
+           "the closeness of the concrete results is MEASURED here against the property's 1e-12 / 0.1 % (max relative deviation in the evidence)",
            "math.log tick estimates and estimate_ratio are libm oracles"]
 ASSUMPTIONS = ["|tick| <= 330000 + range width: get_liquidity_for_amount0 floors sqrtA*sqrtB/2^96, which has only 2^96*1.0001^t significant units at negative ticks (1e12 at t = -389000), so 1e-12 cannot hold beyond; an extreme-band stream is measured separately",
                "amounts are compared at max(1e-12, 2/L_min) relative plus 4 atomic units, L_min = smallest positive liquidity held: liquidity is an "
